@@ -293,7 +293,7 @@ theorem optLoop_spec (p : Bytes) (fuel : Nat) (s : Sector) (e : Nat) (he : s.edn
       exact ⟨by omega, he⟩
 
 theorem parseOpt_spec {p : Bytes} {s : Sector} (h : s.offset ≤ p.length) :
-    (parseOpt p s).Returns ∧ ∀ s', parseOpt p s = .ok s' → s'.offset ≤ p.length := by
+    (parseOpt p s).Returns ∧ ∀ s', parseOpt p s = .ok s' → s.offset + 10 ≤ s'.offset ∧ s'.offset ≤ p.length := by
   unfold parseOpt
   simp only [u8Load_eq h, be16Load_eq h, incrementOffset_eq h, failIf]
   consts
@@ -332,7 +332,7 @@ theorem parseOpt_spec {p : Bytes} {s : Sector} (h : s.offset ≤ p.length) :
     refine ⟨this.1, ?_⟩
     intro s' hs'
     have := (this.2 s' hs').1
-    omega
+    constructor <;> omega
 
 /-! ### records -/
 
@@ -359,12 +359,16 @@ theorem tail_spec {p : Bytes} {s : Sector} (hs : s.offset ≤ p.length) (c : Boo
     rw [e1]; exact e2
 
 /-- post-condition shared by all record parsers: the call returns, and on success the cursor is inside the packet -/
-def Post (p : Bytes) (x : Res Sector) : Prop := x.Returns ∧ ∀ s', x = .ok s' → s'.offset ≤ p.length
+def Post (p : Bytes) (lo : Nat) (x : Res Sector) : Prop :=
+  x.Returns ∧ ∀ s', x = .ok s' → lo ≤ s'.offset ∧ s'.offset ≤ p.length
 
-theorem post_err (p : Bytes) (e : Err) : Post p (.err e) := ⟨returns_err _, by intro s' h; simp at h⟩
+theorem post_err (p : Bytes) (lo : Nat) (e : Err) : Post p lo (.err e) := ⟨returns_err _, by intro s' h; simp at h⟩
 
-theorem post_bind {α} {p : Bytes} {x : Res α} {f : α → Res Sector}
-    (h1 : x.Returns) (h2 : ∀ a, x = .ok a → Post p (f a)) : Post p (x >>= f) := by
+theorem Post.mono {p : Bytes} {lo lo' : Nat} {x : Res Sector} (h : Post p lo x) (hl : lo' ≤ lo) : Post p lo' x :=
+  ⟨h.1, fun s' hs => ⟨Nat.le_trans hl (h.2 s' hs).1, (h.2 s' hs).2⟩⟩
+
+theorem post_bind {α} {p : Bytes} {lo : Nat} {x : Res α} {f : α → Res Sector}
+    (h1 : x.Returns) (h2 : ∀ a, x = .ok a → Post p lo (f a)) : Post p lo (x >>= f) := by
   constructor
   · exact bind_returns h1 (fun a ha => (h2 a ha).1)
   · intro s' h
@@ -372,8 +376,8 @@ theorem post_bind {α} {p : Bytes} {x : Res α} {f : α → Res Sector}
     exact (h2 a ha).2 s' hf
 
 theorem post_inc {p : Bytes} {s : Sector} (hs : s.offset ≤ p.length) (n : Nat) :
-    Post p (do let (s, _) ← incrementOffset p s n; pure s) := by
-  show Post p (incrementOffset p s n >>= fun x => pure x.1)
+    Post p (s.offset + n) (do let (s, _) ← incrementOffset p s n; pure s) := by
+  show Post p (s.offset + n) (incrementOffset p s n >>= fun x => pure x.1)
   apply post_bind (incrementOffset_returns hs n)
   intro ⟨s1, old⟩ h1
   obtain ⟨e1, e2, _⟩ := incrementOffset_ok hs h1
@@ -381,7 +385,7 @@ theorem post_inc {p : Bytes} {s : Sector} (hs : s.offset ≤ p.length) (n : Nat)
   intro s' h
   simp at h
   subst h
-  rw [e1]; exact e2
+  rw [e1]; exact ⟨Nat.le_refl _, e2⟩
 
 theorem sub_returns (a b : Nat) : (sub a b).Returns ∨ sub a b = .panic := by
   unfold sub; split
@@ -392,7 +396,7 @@ theorem sub_returns (a b : Nat) : (sub a b).Returns ∨ sub a b = .panic := by
 theorem post_name_rdata {p : Bytes} {s1 : Sector} (hs : s1.offset ≤ p.length) (c : Bool) (rdlen pre : Nat)
     (chk : Bytes → Nat → Res Nat) (hchk : ∀ o, (chk p o).Returns)
     (hgt : ∀ o e, chk p o = .ok e → o < e) :
-    Post p (do
+    Post p (s1.offset + 10) (do
       failIf c .packetTooSmall
       let (s, _) ← incrementOffset p s1 10
       let fin ← chk p (s.offset + pre)
@@ -414,7 +418,9 @@ theorem post_name_rdata {p : Bytes} {s1 : Sector} (hs : s1.offset ≤ p.length) 
   simp only [bind_ok]
   apply post_bind (failIf_returns _ _)
   intro _ _
-  exact post_inc hs2 _
+  have := post_inc (p := p) hs2 rdlen
+  have e : s2.offset = s1.offset + 10 := by rw [e1]
+  exact this.mono (by omega)
 
 theorem checkUncompressedName_ok_gt {p : Bytes} {off e : Nat} (h : checkUncompressedName p off = .ok e) :
     off < e := by
@@ -451,43 +457,46 @@ theorem checkUncompressedName_ok_gt {p : Bytes} {off e : Nat} (h : checkUncompre
     exact key _ _ _ h
 
 theorem parseRR_spec {p : Bytes} {s : Sector} (sec : Section) (h : s.offset ≤ p.length) :
-    Post p (parseRR p s sec) := by
+    Post p (s.offset + 11) (parseRR p s sec) := by
   unfold parseRR
   have hsn := skipName_returns p s
   cases hsk : skipName p s with
-  | err e => exact post_err _ _
+  | err e => exact post_err _ _ _
   | panic => exact absurd hsk hsn.1
   | diverge => exact absurd hsk hsn.2
   | ok s1 =>
     obtain ⟨off, hcc, hs1, hoff⟩ := skipName_ok hsk
     have h1 : s1.offset ≤ p.length := by rw [hs1]; simp; omega
-    have hge : s.offset ≤ s1.offset := by
+    have hgt : s.offset < s1.offset := by
       rw [hs1]; simp
-      exact Nat.le_of_lt (checkCompressedName_ok_gt hcc)
+      exact checkCompressedName_ok_gt hcc
+    have hge : s.offset ≤ s1.offset := Nat.le_of_lt hgt
+    have hlo : s.offset + 11 ≤ s1.offset + 10 := by omega
     simp only [bind_ok, rrType, rrRdlen, be16Load_eq h1]
     consts
     split
-    · exact post_err _ _
+    · exact post_err _ _ _
     simp only [bind_ok]
     split
-    · exact post_err _ _
+    · exact post_err _ _ _
     simp only [bind_ok]
     split
     · -- OPT
       simp only [failIf]
       split
-      · exact post_err _ _
+      · exact post_err _ _ _
       simp only [bind_ok, sub_returns_of_le hge]
       split
-      · exact post_err _ _
+      · exact post_err _ _ _
       simp only [bind_ok]
-      exact parseOpt_spec h1
+      have := parseOpt_spec (p := p) (s := s1) h1
+      exact ⟨this.1, fun s' hs' => ⟨by have := (this.2 s' hs').1; omega, (this.2 s' hs').2⟩⟩
     split
-    · exact post_name_rdata h1 _ _ 0 checkCompressedName (checkCompressedName_returns p)
-        (fun _ _ h => checkCompressedName_ok_gt h)
+    · exact (post_name_rdata h1 _ _ 0 checkCompressedName (checkCompressedName_returns p)
+        (fun _ _ h => checkCompressedName_ok_gt h)).mono hlo
     split
-    · exact post_name_rdata h1 _ _ 2 checkCompressedName (checkCompressedName_returns p)
-        (fun _ _ h => by have := checkCompressedName_ok_gt h; omega)
+    · exact (post_name_rdata h1 _ _ 2 checkCompressedName (checkCompressedName_returns p)
+        (fun _ _ h => by have := checkCompressedName_ok_gt h; omega)).mono hlo
     split
     · -- SOA
       apply post_bind (failIf_returns _ _)
@@ -496,6 +505,7 @@ theorem parseRR_spec {p : Bytes} {s : Sector} (sec : Section) (h : s.offset ≤ 
       intro ⟨s2, old⟩ h2
       obtain ⟨e1, e2, _⟩ := incrementOffset_ok h1 h2
       have hs2 : s2.offset ≤ p.length := by rw [e1]; exact e2
+      have es2 : s2.offset = s1.offset + 10 := by rw [e1]
       apply post_bind (checkCompressedName_returns _ _)
       intro fin1 hfin1
       apply post_bind (checkCompressedName_returns _ _)
@@ -514,36 +524,37 @@ theorem parseRR_spec {p : Bytes} {s : Sector} (sec : Section) (h : s.offset ≤ 
       simp only [bind_ok]
       apply post_bind (failIf_returns _ _)
       intro _ _
-      exact post_inc hs2 _
+      exact (post_inc hs2 _).mono (by omega)
     split
-    · exact post_name_rdata h1 _ _ 0 checkUncompressedName (checkUncompressedName_returns p)
-        (fun _ _ h => checkUncompressedName_ok_gt h)
-    split
-    · apply post_bind (failIf_returns _ _)
-      intro _ _
-      exact post_inc h1 _
+    · exact (post_name_rdata h1 _ _ 0 checkUncompressedName (checkUncompressedName_returns p)
+        (fun _ _ h => checkUncompressedName_ok_gt h)).mono hlo
     split
     · apply post_bind (failIf_returns _ _)
       intro _ _
-      exact post_inc h1 _
-    · exact post_inc h1 _
+      exact (post_inc h1 _).mono (by omega)
+    split
+    · apply post_bind (failIf_returns _ _)
+      intro _ _
+      exact (post_inc h1 _).mono (by omega)
+    · exact (post_inc h1 _).mono (by omega)
 
 theorem parseRRs_spec {p : Bytes} (sec : Section) (n : Nat) {s : Sector} (h : s.offset ≤ p.length) :
-    Post p (parseRRs p sec n s) := by
+    Post p (s.offset + 11 * n) (parseRRs p sec n s) := by
   induction n generalizing s with
-  | zero => exact ⟨returns_ok _, by intro s' h'; simp [parseRRs] at h'; subst h'; exact h⟩
+  | zero => exact ⟨returns_ok _, by intro s' h'; simp [parseRRs] at h'; subst h'; exact ⟨by omega, h⟩⟩
   | succ k ih =>
     unfold parseRRs
     have := parseRR_spec (p := p) (s := s) sec h
     apply post_bind this.1
     intro s1 hs1
-    exact ih (this.2 s1 hs1)
+    have b := this.2 s1 hs1
+    exact (ih b.2).mono (by omega)
 
 theorem be16_returns_of_le {p : Bytes} {i : Nat} (h : i + 2 ≤ p.length) : (be16 p i).Returns := by
   rw [(be16_ok_of_le h).1]; exact returns_ok _
 
 theorem parseQuestion_spec {p : Bytes} {s : Sector} (_h : s.offset ≤ p.length) :
-    Post p (parseQuestion p s) := by
+    Post p (s.offset + 5) (parseQuestion p s) := by
   unfold parseQuestion
   apply post_bind (skipName_returns _ _)
   intro s1 hsk
@@ -559,7 +570,10 @@ theorem parseQuestion_spec {p : Bytes} {s : Sector} (_h : s.offset ≤ p.length)
   intro _ _
   apply post_bind (failIf_returns _ _)
   intro _ _
-  exact post_inc h1 _
+  have hgt : s.offset < s1.offset := by
+    rw [hs1]; simp
+    exact checkCompressedName_ok_gt hcc
+  exact (post_inc h1 _).mono (by consts; omega)
 
 /-- C01, first half: `parse` returns `Ok` or `Err` on every byte string. -/
 theorem parse_returns (p : Bytes) : (parse p).Returns := by
@@ -588,7 +602,7 @@ theorem parse_returns (p : Bytes) : (parse p).Returns := by
   have hq := parseQuestion_spec (p := p) (s := s1) h1
   apply bind_returns hq.1
   intro s2 hs2
-  have h2 := hq.2 s2 hs2
+  have h2 := (hq.2 s2 hs2).2
   apply bind_returns (be16_returns_of_le (by omega))
   intro an _
   split
@@ -597,7 +611,7 @@ theorem parse_returns (p : Bytes) : (parse p).Returns := by
   have ha := parseRRs_spec (p := p) .answer an h2
   apply bind_returns ha.1
   intro s3 hs3
-  have h3 := ha.2 s3 hs3
+  have h3 := (ha.2 s3 hs3).2
   apply bind_returns (be16_returns_of_le (by omega))
   intro ns _
   split
@@ -606,13 +620,13 @@ theorem parse_returns (p : Bytes) : (parse p).Returns := by
   have hn := parseRRs_spec (p := p) .nameServers ns h3
   apply bind_returns hn.1
   intro s4 hs4
-  have h4 := hn.2 s4 hs4
+  have h4 := (hn.2 s4 hs4).2
   apply bind_returns (be16_returns_of_le (by omega))
   intro ar _
   have hr := parseRRs_spec (p := p) .additional ar h4
   apply bind_returns hr.1
   intro s5 hs5
-  have h5 := hr.2 s5 hs5
+  have h5 := (hr.2 s5 hs5).2
   rw [remainingLen_eq h5]
   simp only [bind_ok]
   split
